@@ -47,8 +47,8 @@ ASSUMPTIONS = [
   'when F holds an error the text of C is not predicted (only firing is judged)',
   'all generated actions are valid; a rejected bundle is reported as C15:setup:bundle-rejected',
 ]
-BUDGET = {'quick': dict(examples=2400, shards=16, max_seconds=55),
-          'thorough': dict(examples=40000, shards=16, max_seconds=570)}
+BUDGET = {'quick': dict(examples=2400, shards=16, max_seconds=45),
+          'thorough': dict(examples=40000, shards=16, max_seconds=540)}
 SHRINK_BUDGET = {'quick': 150, 'thorough': 500}
 
 TABLE = 'Tab1'
